@@ -370,8 +370,8 @@ func (jw *JSONWriter) encodeJsonChildren(sn schema.Node, n datanode.DataNode) {
 					}
 					jw.writeValue(csn, v)
 				}
+				jw.WriteByte(']')
 			}
-			jw.WriteByte(']')
 		}
 		if jw.rfc7951 {
 			jw.PopName()
